@@ -143,7 +143,10 @@ fn spawn_udp(ip: IpAddr, server: ServerFn, allowed: usize) -> Option<Loopback> {
 
 pub fn spawn_tcp_pub(ip: IpAddr, server: ServerFn, allowed: usize) -> Option<Loopback> { spawn_tcp(ip, server, allowed) }
 
-fn spawn_tcp(ip: IpAddr, server: ServerFn, allowed: usize) -> Option<Loopback> {
+fn spawn_tcp(ip: IpAddr, server: ServerFn, allowed: usize) -> Option<Loopback> { spawn_tcp_opts(ip, server, allowed, false) }
+
+/// `partial_hold`: write only the first half of the stream and then keep the connection open.
+fn spawn_tcp_opts(ip: IpAddr, server: ServerFn, allowed: usize, partial_hold: bool) -> Option<Loopback> {
     let listener = TcpListener::bind((ip, 0)).ok()?;
     listener.set_nonblocking(true).ok()?;
     let port = listener.local_addr().ok()?.port();
@@ -175,6 +178,11 @@ fn spawn_tcp(ip: IpAddr, server: ServerFn, allowed: usize) -> Option<Loopback> {
                         if n2.load(Ordering::SeqCst) < allowed {
                             if let Some(stream) = responder.stream(&conn) {
                                 n2.fetch_add(1, Ordering::SeqCst);
+                                if partial_hold {
+                                    let _ = s.write_all(&stream[.. stream.len() / 2]);
+                                    let _ = s.flush();
+                                    break; // not answered: the connection is held open below
+                                }
                                 let _ = s.write_all(&stream);
                                 // half-close and drain what the client still sends, so that the close is not a reset
                                 let _ = s.shutdown(std::net::Shutdown::Write);
@@ -231,6 +239,8 @@ enum What {
     Silence { entry: usize, k: usize, v6: bool, ms: u64, retries: usize, variant: u8 },
     /// special endpoints: 0 = TCP refused, 1 = UDP port closed
     Special { entry: usize, kind: u8, v6: bool, ms: u64, retries: usize },
+    /// TCP: half of the reply, then the connection stays open and silent
+    PartialHold { entry: usize, v6: bool, ms: u64, retries: usize },
     Master { v6: bool, ms: u64 },
     Eco { v6: bool, ms: u64, hold: bool },
     Echo { tcp: bool, v6: bool },
@@ -273,6 +283,12 @@ fn build(tier: Tier) -> Vec<Case> {
                                 what: What::Silence { entry: ei, k, v6, ms: *ms, retries: *r, variant: *variant },
                             });
                         }
+                    }
+                    if e.tcp {
+                        v.push(Case {
+                            label: format!("{} {} half a reply then silence on an open connection, timeout {ms} ms, retries {r}", e.name, if v6 { "::1" } else { "127.0.0.1" }),
+                            what: What::PartialHold { entry: ei, v6, ms: *ms, retries: *r },
+                        });
                     }
                     v.push(Case {
                         label: format!("{} {} {}, timeout {ms} ms, retries {r}", e.name, if v6 { "::1" } else { "127.0.0.1" }, if e.tcp { "connection refused" } else { "port closed" }),
@@ -334,7 +350,7 @@ impl Prop for C12 {
         "full matrix on real loopback sockets: entry point {valve (challenge + 3 requests, split lists), gamespy3 (handshake + \
          data), unreal2 (trailing receives), quake3, bedrock, java (TCP), legacy 1.6 (TCP)} x silence point {before the first \
          reply, after each reply, never} + {TCP connection refused / UDP port closed} x {127.0.0.1, ::1} x read/write/connect \
-         timeout {150 ms (quick); 150, 400 ms (thorough)} x retries {0, 1 (quick); 0, 1, 2}; plus eco over HTTP (accept-then-hold, \
+         timeout {150 ms (quick); 150, 400 ms (thorough)} x retries {0, 1 (quick); 0, 1, 2}; plus, for TCP, half a reply followed by silence on an open connection; eco over HTTP (accept-then-hold, \
          refused) and the master server (silent). The loopback servers are driven by the same reference models. Oracle: the \
          outcome class equals the outcome of the deterministic twin run under the virtual network with the same silence point \
          (which also yields N = number of receives that time out); the call returns within N x timeout + 1.5 s (hard watchdog at \
@@ -456,6 +472,35 @@ impl Prop for C12 {
                 match verdict {
                     None => ctx.sample(serde_json::json!({"case": case.label})),
                     Some((k2, d)) => ctx.violation(format!("real-socket:{k2}:{}", if e.tcp { "tcp" } else { "udp" }), &[], format!("{}: {d}", case.label), d.clone(), if kind == 0 { "Err(SocketConnect)" } else { "a receive/send-class error" }, vec![]),
+                }
+            }
+            What::PartialHold { entry, v6, ms, retries } => {
+                let e = entries()[entry].clone();
+                let ip = loop_ip(v6);
+                let Some(server) = spawn_tcp_opts(ip, server_for(e.family), usize::MAX, true) else { return };
+                let port = server.port;
+                let call = e.call.clone();
+                let t = ts(ms, retries);
+                let bound = Duration::from_millis(ms) * (retries as u32 + 1) + SLACK;
+                let r = with_watchdog(bound * 4 + Duration::from_secs(5), move || call(ip, port, t));
+                ctx.counters.transitions += 1;
+                let verdict = match r {
+                    None => Some(("never-times-out".to_string(), "no return".to_string())),
+                    Some((res, elapsed)) => {
+                        if !matches!(&res, Err(err) if matches!(err.kind, GDErrorKind::PacketReceive | GDErrorKind::PacketSend)) {
+                            Some((format!("error-class:{}", if v6 { "ipv6" } else { "ipv4" }), format!("outcome {}", class_of(&res))))
+                        } else if elapsed > bound {
+                            Some(("too-slow".to_string(), format!("took {elapsed:?}, bound {bound:?}")))
+                        } else {
+                            None
+                        }
+                    }
+                };
+                drop(server);
+                ctx.distinct_key(&(case.label.clone(), verdict.clone()));
+                match verdict {
+                    None => ctx.sample(serde_json::json!({"case": case.label})),
+                    Some((k2, d)) => ctx.violation(format!("real-socket:{k2}:tcp"), &[], format!("{}: {d}", case.label), d.clone(), "a receive-class error within (retries + 1) x timeout", vec![]),
                 }
             }
             What::Master { v6, ms } => {
